@@ -84,7 +84,7 @@ class UniqFilter:
 
             return items
 
-        if key is not None:
+        if key is not None and not is_undefined(key):
             keys = []
             result = []
             for obj in left:
